@@ -37,6 +37,9 @@ type CListMempool struct {
 	// Exclusive mutex for Update method to prevent concurrent execution of
 	// CheckTx or ReapMaxBytesMaxGas(ReapMaxTxs) methods.
 	updateMtx tmsync.RWMutex
+
+	// Serialises the check-and-insert step of the first-time CheckTx callbacks.
+	insertMtx tmsync.Mutex
 	preCheck  mempool.PreCheckFunc
 	postCheck mempool.PostCheckFunc
 
@@ -382,6 +385,14 @@ func (mem *CListMempool) resCbFirstTime(
 			postCheckErr = mem.postCheck(tx, r.CheckTx)
 		}
 		if (r.CheckTx.Code == abci.CodeTypeOK) && postCheckErr == nil {
+			// With an in-process ABCI client this callback runs in the goroutine of
+			// the CheckTx caller, concurrently with the callbacks of other callers
+			// (they only share the read side of updateMtx): the checks below and
+			// the insertion must be one step, or two callers both see room (or no
+			// duplicate) and both insert.
+			mem.insertMtx.Lock()
+			defer mem.insertMtx.Unlock()
+
 			// Check the transaction is not already in the pool: the cache may have
 			// evicted it while it is still waiting here.
 			if e, ok := mem.txsMap.Load(types.Tx(tx).Key()); ok {
